@@ -11,7 +11,7 @@ _T = ['sym_reverses_velocity_only', 'outsup_copies', 'outsub_imposes_pressure', 
       'outsub_nrcbc_compatible', 'outsub_rh_compatible']
 THEOREMS = ['Flowdyn.C16.' + t for t in _T]
 AUDIT_IMPORTS = ['Flowdyn.Props.KernelsBridge']
-THEOREMS = THEOREMS + ['Flowdyn.GenK.%s_eq' % k for k in ['eBcInsub', 'eBcInsubCbc', 'eBcInsup', 'eBcOutsubQtot', 'eBcOutsubRh', 'eBcOutsubNrcbc']]
+THEOREMS = THEOREMS + ['Flowdyn.GenK.%s_eq' % k for k in ['eBcInsub', 'eBcInsubCbc', 'eBcInsup', 'eBcOutsubQtot', 'eBcOutsubRh', 'eBcOutsubNrcbc', 'eBcSym', 'eBcOutsub', 'eBcOutsup']]
 PARTIAL = {}
 LEVEL_NOTE = "boundary kernels over the reals with explicit regime hypotheses; dispatch by name/direction/parameter dictionary is covered by L-bcker and L-bc1d/L-bc2d"
 TOL = 1e-9
